@@ -100,12 +100,15 @@ def gen_filepatch(rng):
     elif style in ("git", "gitnohunk"):
         out += b"diff --git " + o + b" " + n + b"\n"
         meta = []
+        # modes of every kind git writes: regular, executable, symbolic link, gitlink, and bits beyond the permissions
+        # (seeded C12-i: the writer forced every mode into the shape of a regular file's)
+        MODES = [b"100644", b"100755", b"100644", b"100755", b"120000", b"160000", b"100600", b"104755", b"040000", b"100664", b"0", b"777"]
         if rng.random() < 0.3:
-            meta += [b"old mode 100644\n", b"new mode 100755\n"]
+            meta += [b"old mode " + rng.choice(MODES) + b"\n", b"new mode " + rng.choice(MODES) + b"\n"]
         if rng.random() < 0.2:
-            meta += [b"new file mode 100644\n"]
+            meta += [b"new file mode " + rng.choice(MODES) + b"\n"]
         if rng.random() < 0.2:
-            meta += [b"deleted file mode 100755\n"]
+            meta += [b"deleted file mode " + rng.choice(MODES) + b"\n"]
         if rng.random() < 0.3:
             meta += [b"rename from " + o + b"\n", b"rename to " + n + b"\n"]
         if rng.random() < 0.1:
